@@ -245,6 +245,15 @@ def r7(ctx):
         ctx.require_guards(hb, b.idx, [("deferred read is Some", g_is(lambda x: mentions_call(x, r"DeferredRead::select$"), "Some"))], "deferred:serve", "serving the deferred READ")
         e = ctx.sym(hb).call_expr(b.term)
         ctx.check(e[2][2][0] == "const" and e[2][2][1] == 1 and mentions_field(e[2][3], "seq") and mentions_field(e[2][4], "iin2"), "deferred:args", "format_read_response(fir=%s, seq=%s, iin2=%s)" % (expr_str(e[2][2]), expr_str(e[2][3])[-30:], expr_str(e[2][4])[-30:]), hb.where(b.idx))
+    # a later READ supersedes the stored one: set() starts from an empty header list
+    sb_ = prog.body("DeferredRead::set")
+    ss_ = ctx.sym(sb_)
+    pushes = [b for b in call_sites(sb_, r"Vec<.*>::push$|::push$") if mentions_field(ss_.call_expr(b.term)[2][0], "vec")]
+    empt = [b.idx for b in call_sites(sb_, r"Vec<.*>::(clear|truncate)$|::clear$") if mentions_field(ss_.call_expr(b.term)[2][0], "vec")] + [b.idx for b, si, st in field_writes(sb_, "vec")]
+    if not pushes:
+        raise AnchorError("DeferredRead::set: no push into vec")
+    for b in pushes:
+        ctx.check(any(sb_.block_dominates(x, b.idx) for x in empt), "deferred:set-starts-empty", "DeferredRead::set empties the header list before storing the new READ's headers", sb_.where(b.idx), bad_detail="DeferredRead::set appends to the headers of the READ it supersedes: the answer to the later READ also carries what the earlier one asked for")
     ds = prog.body("DeferredRead::select")
     cs = prog.children(ds)
     okreset = any(call_sites(c, r"Database::reset$") for c in cs)
